@@ -132,6 +132,24 @@ func JudgeAtLeastOnce(obs *Obs) (fs []Finding, info map[string]int) {
 			add("queue-file-undecodable", "queue file does not decode as the chunk it is named after: "+b)
 		}
 	}
+	// process-level generations: SIGTERM must end the process normally (66 = normal end with data race reports, judged elsewhere)
+	for gi, g := range obs.Gens {
+		if pe := g.ProcExit; pe != nil {
+			info["process_level_generations"]++
+			if pe.Signal == "terminated" && !pe.Panicked {
+				// SIGTERM took its default action: it arrived before run.Run had installed its handler (not a graceful stop)
+				info["sigterm_before_handler"]++
+				continue
+			}
+			if (pe.Code != 0 && pe.Code != 66) || pe.Panicked {
+				tail := pe.Tail
+				if len(tail) > 6 {
+					tail = tail[len(tail)-6:]
+				}
+				add("process-exit", fmt.Sprintf("gen %d: the agent process ended with status %d %s after SIGTERM; last output: %s", gi, pe.Code, pe.Signal, cut200(strings.Join(tail, " | "))))
+			}
+		}
+	}
 	// what the agent itself reported at error level (a scaled-down timeout that expired on a starved machine shows here)
 	agentLog := ""
 	{
@@ -253,4 +271,3 @@ func cut(s string) string {
 	}
 	return s
 }
-
